@@ -1965,9 +1965,11 @@ func (self *Aof) WaitRewriteAofFiles() error {
 }
 
 func (self *Aof) rewriteAofFiles() {
+	verifPoint(VP_REWRITE_ENTER)
 	self.glock.Lock()
 	if self.isRewriting {
 		self.glock.Unlock()
+		verifPoint(VP_REWRITE_EXIT)
 		return
 	}
 	self.isWaitRewite = false
@@ -1982,6 +1984,7 @@ func (self *Aof) rewriteAofFiles() {
 			self.rewritedWaiter = nil
 		}
 		self.glock.Unlock()
+		verifPoint(VP_REWRITE_EXIT)
 	}()
 
 	aofFilenames, err := self.findRewriteAofFiles()
